@@ -613,3 +613,54 @@ func VerifC15AppendComment() {
 		v.Assert(c15Compare(out, ref, ""), "C15: comment appending: result differs from the documented effect (or something else changed)")
 	}
 }
+
+// VerifC10ConstantUnionDefault (C10): `"auto" | string` (either order; string, int64 or float64; as an object,
+// a field, array elements) handled by disjunction_with_constant_to_default becomes the plain scalar whose
+// default is that constant — the value, with its dynamic type, must not be altered, re-typed or dropped.
+func VerifC10ConstantUnionDefault() {
+	kind := ast.ScalarKind(v.Str("kind", "string", "int64", "float64"))
+	var value any
+	switch kind {
+	case ast.KindString:
+		value = v.Str("const", "auto", "")
+	case ast.KindInt64:
+		value = int64(v.Int("constint", 0, 3))
+	default:
+		value = float64(v.Int("constfloat", 0, 3))
+	}
+	constant := ast.NewScalar(kind, ast.Value(value))
+	plain := ast.NewScalar(kind)
+	var u ast.Type
+	if v.Bool("constantfirst") {
+		u = ast.NewDisjunction(ast.Types{constant, plain})
+	} else {
+		u = ast.NewDisjunction(ast.Types{plain, constant})
+	}
+	p := ast.NewSchema("p", ast.SchemaMeta{})
+	where := v.Choose(3)
+	switch where {
+	case 0:
+		p.AddObject(ast.NewObject("p", "Foo", u))
+	case 1:
+		f := ast.NewStructField("mode", u)
+		f.Required = v.Bool("required")
+		p.AddObject(ast.NewObject("p", "Foo", ast.NewStruct(f)))
+	default:
+		p.AddObject(ast.NewObject("p", "Foo", ast.NewArray(u)))
+	}
+	out, err := Passes{&DisjunctionWithConstantToDefault{}}.Process(ast.Schemas{p})
+	v.Assert(err == nil, "C10: disjunction_with_constant_to_default returned an error")
+	if err != nil {
+		return
+	}
+	foo, _ := out.LocateObject("p", "Foo")
+	got := foo.Type
+	switch where {
+	case 1:
+		got = foo.Type.Struct.Fields[0].Type
+	case 2:
+		got = foo.Type.Array.ValueType
+	}
+	v.Assert(got.Kind == ast.KindScalar && got.Scalar.ScalarKind == kind && got.Scalar.Value == nil, "C10: a union of a constant and its type did not become the plain scalar")
+	v.Assert(v.DeepEqual(got.Default, value), "C10: the constant of a `constant | type` union is not the default of the resulting scalar (altered, re-typed or dropped)")
+}
